@@ -100,6 +100,11 @@ func (n *Node) AppendArray(value ...*Node) error {
 		return errorType()
 	}
 	for _, val := range value {
+		if n.isParentOrSelfNode(val) {
+			return errorRequest("attempt to create infinite loop")
+		}
+	}
+	for _, val := range value {
 		if err := n.appendNode(nil, val); err != nil {
 			return err
 		}
@@ -267,14 +272,26 @@ func (n *Node) validate(_type NodeType, value interface{}) error {
 		}
 	case Array:
 		if value != nil {
-			if _, ok := value.([]*Node); !ok {
+			nodes, ok := value.([]*Node)
+			if !ok {
 				return errorType()
+			}
+			for _, node := range nodes {
+				if n.isParentOrSelfNode(node) {
+					return errorRequest("attempt to create infinite loop")
+				}
 			}
 		}
 	case Object:
 		if value != nil {
-			if _, ok := value.(map[string]*Node); !ok {
+			nodes, ok := value.(map[string]*Node)
+			if !ok {
 				return errorType()
+			}
+			for _, node := range nodes {
+				if n.isParentOrSelfNode(node) {
+					return errorRequest("attempt to create infinite loop")
+				}
 			}
 		}
 	}
